@@ -40,6 +40,7 @@ CASES = {
     'hcpoct-2': ('hcpoct', (0.5, 1.05), 2, (), 1, 0.75),
     'omega-3': ('omega', (0.62, 0.75), 3, (), 0, 0.7),
     'rect2-3': ('rect2', (0.6, 1.05), 3, (), 0, 0.9),
+    'skew2-2': ('skew2', (0.9, 1.55), 2, (), 0, 1.05),
 }
 
 
@@ -178,7 +179,7 @@ def _agree(member, present, sym):
     return bool(member) == present
 
 
-QUICK = ['fcc-3', 'b2-3', 'b2-excl', 'square-3', 'tetra-ab-2', 'hcpoct-2', 'omega-3', 'rect2-3']
+QUICK = ['fcc-3', 'b2-3', 'b2-excl', 'square-3', 'tetra-ab-2', 'hcpoct-2', 'omega-3', 'rect2-3', 'skew2-2']
 THOROUGH = QUICK + ['hcp-2', 'tetra-ab-3']
 
 
